@@ -125,6 +125,7 @@ inductive Reply where
   | ok                      -- returned normally
   | raised (e : Err)        -- the exception propagated to the caller
   | typeError | unknownEvent | invalidState
+  | attributeError          -- only `wait_init()` after an abort before the start (see `waitInitReply`)
   deriving DecidableEq, Repr, Inhabited
 
 structure Out where
@@ -214,6 +215,17 @@ def final (s : St) (ops : List Op) : St := (run s ops).1
 def deliveries (s : St) (ops : List Op) : List Err := (run s ops).2
 
 /-! ### what the API reports once the simulation task is done -/
+
+/-- `wait_init()` awaited from before the start of the task (state `s`, the start-up will fail with `initErr` if
+    given) until it returns.  What the code does: `_check_started` yields once, so the task has begun; when an
+    error was recorded before the start, run_forever raises it before `self._init_done` is created and
+    wait_init() fails with AttributeError (not EdzedInvalidState); when the start-up fails, the task ends first:
+    EdzedInvalidState; otherwise it returns when the initialisation is complete -/
+def waitInitReply (s : St) (initErr : Option Nat) : Reply :=
+  match s.error, initErr with
+  | some _, _ => .attributeError
+  | none, some _ => .invalidState
+  | none, none => .ok
 
 /-- `await simtask` / `run_forever()` raises `_error` -/
 def runForeverRaises (s : St) : Option Err := s.error
